@@ -77,6 +77,10 @@ package raft
 //@ ensures im.valid()
 //@ ensures (cu.StableLogTo > 0 && cu.StableLogTo >= old(im.markerIndex) && cu.StableLogTo < old(im.markerIndex) + len(old(im.entries)) && old(im.entries[cu.StableLogTo - im.markerIndex].Term) == cu.StableLogTerm) ==> im.savedTo == cu.StableLogTo
 //@ ensures !(cu.StableLogTo > 0 && cu.StableLogTo >= old(im.markerIndex) && cu.StableLogTo < old(im.markerIndex) + len(old(im.entries)) && old(im.entries[cu.StableLogTo - im.markerIndex].Term) == cu.StableLogTerm) ==> im.savedTo == old(im.savedTo)
+// ... and the snapshot acknowledgement is processed independently of the entries acknowledgement: one
+// UpdateCommit may carry both
+//@ ensures old(im.snapshot) != nil && cu.StableSnapshotTo > 0 && old(im.snapshot.Index) == cu.StableSnapshotTo ==> im.snapshot == nil
+//@ ensures !(old(im.snapshot) != nil && cu.StableSnapshotTo > 0 && old(im.snapshot.Index) == cu.StableSnapshotTo) ==> im.snapshot == old(im.snapshot)
 
 //@ func (im *inMemory) newEntrySlice [C19]
 //@ ensures len(result) == len(ents) && fresh(result)
@@ -114,7 +118,7 @@ package raft
 //@    im.markerIndex == old(im.markerIndex) && len(im.entries) == len(old(im.entries)) && ptr(im.entries) == ptr(old(im.entries)) &&
 //@    im.appliedToIndex == old(im.appliedToIndex) && im.appliedToTerm == old(im.appliedToTerm)
 
-//@ func (im *inMemory) restore [C19]
+//@ func (im *inMemory) restore [C19 C02]
 //@ requires ss.Index < MaxUint64
 //@ modifies im.snapshot, im.markerIndex, im.appliedToIndex, im.appliedToTerm, im.shrunk, im.entries, im.savedTo
 //@ ensures im.valid()
@@ -503,6 +507,14 @@ package raft
 //@ ensures old(r.state) == witness && r.state == witness && r.term == term
 
 // vote counting: one entry per sender, first answer wins, result = number of granted votes
+// R7 for the PreVote phase: an answer from a non-voting member changes nothing -- non-voting members
+// never help a replica out of the PreVote stage into a real campaign (and a term bump)
+//@ func (r *raft) handlePreVoteCandidateRequestPreVoteResp [C18 C03]
+//@ noframe
+//@ nobounds
+//@ requires r.wf() && r.rl != nil && r.electionTimeout > 0 && r.term > 0 && r.term < MaxUint64 && r.log.lastIdx() < MaxUint64 - 2
+//@ ensures old(m.From in r.nonVotings) ==> r.state == old(r.state) && r.term == old(r.term) && r.vote == old(r.vote) && (forall k uint64 :: (k in r.votes) == old(k in r.votes))
+
 //@ func (r *raft) handleVoteResp [C03 C18]
 //@ requires r.votes != nil
 //@ modifies entries(r.votes)
@@ -937,17 +949,17 @@ package raft
 // C02 (commit by counting match indexes): a member the leader has just added is known to hold
 // NOTHING -- its match index starts at 0 and only acknowledgements raise it; starting it anywhere
 // else would let the leader count entries the new member never received towards a quorum
-//@ func (r *raft) addNode [C02 C18]
+//@ func (r *raft) addNode [C02 C18 C07]
 //@ noframe
 //@ nobounds
 //@ requires r.wf() && r.rl != nil && r.electionTimeout > 0
 //@ ensures !old(replicaID in r.remotes) && !old(replicaID in r.nonVotings) ==> replicaID in r.remotes && r.remotes[replicaID].match == 0 && r.remotes[replicaID].next == r.log.lastIdx() + 1
-//@ func (r *raft) addNonVoting [C02 C18]
+//@ func (r *raft) addNonVoting [C02 C18 C07]
 //@ noframe
 //@ nobounds
 //@ requires r.wf()
 //@ ensures !old(replicaID in r.nonVotings) ==> replicaID in r.nonVotings && r.nonVotings[replicaID].match == 0 && r.nonVotings[replicaID].next == r.log.lastIdx() + 1
-//@ func (r *raft) addWitness [C02 C18]
+//@ func (r *raft) addWitness [C02 C18 C07]
 //@ noframe
 //@ nobounds
 //@ requires r.wf()
@@ -1007,17 +1019,31 @@ package raft
 // still a member of the shard: a replica that has applied its own removal never campaigns again,
 // whichever path tries to make it (election timeout, TimeoutNow of a leadership transfer)
 //@ requires m.Type == pb.Election ==> (r.replicaID in r.remotes || r.replicaID in r.nonVotings || r.replicaID in r.witnesses)
+//@ modifies r.state, r.term, r.vote, r.electionTick, r.randomizedElectionTimeout, r.votes, r.heartbeatTick, r.readIndex, r.pendingConfigChange, r.leaderTransferTarget, r.matched
+//@ modifies entries(r.remotes), entries(r.nonVotings), entries(r.witnesses), r.leaderID, r.leaderUpdate, r.prevLeader, entries(r.votes), r.isLeaderTransferTarget
+//@ modifies r.log.inmem.markerIndex, r.log.inmem.shrunk, r.log.inmem.entries, r.log.inmem.savedTo, elems(r.log.inmem.entries[len(r.log.inmem.entries):]), r.log.committed, allof(remote.match), allof(remote.next)
+//@ modifies r.msgs, elems(r.msgs[len(r.msgs):])
+// (assumed about the dispatch: an Election message reaches handleNodeElection, whose contract proves this)
+//@ ensures m.Type == pb.Election && old(r.state) != leader && old(r.log.committed) > old(r.applied) && r.hasNotAppliedConfigChange == nil ==> r.state == old(r.state) && r.term == old(r.term) && r.vote == old(r.vote)
 //@ func (r *raft) sendRateLimitMessage [C18]
 //@ trusted reports the in-memory log size to the leader (rate limiting)
 //@ func (r *raft) timeForRateLimitCheck [C18]
 //@ trusted clock arithmetic
-//@ func (r *raft) nonLeaderTick [C18 C07]
+// C03/C07: no campaign while a committed entry (possibly a membership change) is still unapplied --
+// on the election-timeout path and on the TimeoutNow path of a leadership transfer alike
+//@ func (r *raft) nonLeaderTick [C18 C07 C03]
 //@ noframe
 //@ nobounds
-//@ func (r *raft) handleFollowerTimeoutNow [C18 C07]
+//@ modifies r.state, r.term, r.vote, r.electionTick, r.randomizedElectionTimeout, r.votes, r.heartbeatTick, r.readIndex, r.pendingConfigChange, r.leaderTransferTarget, r.matched
+//@ modifies entries(r.remotes), entries(r.nonVotings), entries(r.witnesses), r.leaderID, r.leaderUpdate, r.prevLeader, entries(r.votes), r.isLeaderTransferTarget
+//@ modifies r.log.inmem.markerIndex, r.log.inmem.shrunk, r.log.inmem.entries, r.log.inmem.savedTo, elems(r.log.inmem.entries[len(r.log.inmem.entries):]), r.log.committed, allof(remote.match), allof(remote.next)
+//@ modifies r.msgs, elems(r.msgs[len(r.msgs):])
+//@ ensures old(r.state) != leader && old(r.log.committed) > old(r.applied) && r.hasNotAppliedConfigChange == nil ==> r.state == old(r.state) && r.term == old(r.term) && r.vote == old(r.vote)
+//@ func (r *raft) handleFollowerTimeoutNow [C18 C07 C03]
 //@ noframe
 //@ nobounds
 //@ requires r.wf()
+//@ ensures old(r.state) != leader && old(r.log.committed) > old(r.applied) && r.hasNotAppliedConfigChange == nil ==> r.state == old(r.state) && r.term == old(r.term) && r.vote == old(r.vote)
 //@ func (p *Peer) Handle [C18 C03]
 //@ noframe
 //@ nobounds
